@@ -108,6 +108,12 @@ def fixed_programs(g):
                            {"name": "Clear", "shape": "unit", "attrs": {}, "fields": []},
                            # an individually `untagged` struct variant of an internally tagged enum carries no tag (serde wants it last)
                            {"name": "Raw", "shape": "named", "attrs": {"untagged": True}, "fields": [{"name": "raw_bytes", "ty": P("u8"), "attrs": {}}]}]}]
+    # an enum with ONE (untagged) variant whose only content is a flattened union, flattened into a struct next to an own field:
+    # `{ id } & (A | B)` — the parentheses of the flattened enum are not optional just because it has one variant
+    items += [{"kind": "enum", "name": "FxOneUnt", "attrs": {"untagged": True}, "generics": [], "de": True,
+               "variants": [{"name": "Only", "shape": "named", "attrs": {}, "fields": [{"name": "shape", "ty": N("FxShape"), "attrs": {"flatten": True}}]}]},
+              {"kind": "struct", "name": "FxOuterFl", "shape": "named", "attrs": {}, "generics": [], "de": True,
+               "fields": [{"name": "id", "ty": P("u8"), "attrs": {}}, {"name": "any", "ty": N("FxOneUnt"), "attrs": {"flatten": True}}]}]
     imap = {x["name"]: x for x in items}
     progs.append({"items": items, "probes": [{"ty": N(x["name"]), "values": g.all_variant_values(N(x["name"]), imap), "de": True} for x in items]})
     # every inflection rule on identifiers that are not in the conventional case: leading underscores, capitals, digits, acronyms
